@@ -24,6 +24,26 @@ AIB = ARR(INT, BOOL)
 _counter = itertools.count(1)
 
 
+class Tm(tuple):
+    """tuple with cached hash (terms are deep DAGs; plain tuple hashing is exponential on them)."""
+
+    def __hash__(self):
+        d = self.__dict__
+        h = d.get('_h')
+        if h is None:
+            h = tuple.__hash__(self)
+            d['_h'] = h
+        return h
+
+
+_intern = {}
+
+
+def mk(*parts):
+    t = Tm(parts)
+    return _intern.setdefault(t, t)
+
+
 def fresh_name(prefix):
     return '%s!%d' % (prefix, next(_counter))
 
@@ -96,10 +116,10 @@ def UF(name, argsorts, ressort):
     else:
         uf_sorts[op] = (tuple(argsorts), ressort)
 
-    def mk(*args):
+    def apply_uf(*args):
         assert len(args) == len(argsorts), (name, args)
-        return ('a', op) + tuple(args)
-    return mk
+        return mk('a', op, *args)
+    return apply_uf
 
 
 def add(*xs):
@@ -122,7 +142,7 @@ def add(*xs):
         rest.append(I(c))
     if len(rest) == 1:
         return rest[0]
-    return ('a', '+') + tuple(rest)
+    return mk('a', '+', *rest)
 
 
 def neg(x):
@@ -130,7 +150,7 @@ def neg(x):
         return I(-x[1])
     if x[0] == 'a' and x[1] == 'neg':
         return x[2]
-    return ('a', 'neg', x)
+    return mk('a', 'neg', x)
 
 
 def sub(x, y):
@@ -140,7 +160,7 @@ def sub(x, y):
         return add(x, I(-y[1]))
     if x[0] == 'i' and x[1] == 0:
         return neg(y)
-    return ('a', '-', x, y)
+    return mk('a', '-', x, y)
 
 
 def mul(x, y):
@@ -153,7 +173,7 @@ def mul(x, y):
             return ZERO
         if y[1] == 1:
             return x
-    return ('a', '*', x, y)
+    return mk('a', '*', x, y)
 
 
 def sdiv(x, y):
@@ -162,7 +182,7 @@ def sdiv(x, y):
         return I(x[1] // y[1])
     if y[0] == 'i' and y[1] == 1:
         return x
-    return ('a', 'div', x, y)
+    return mk('a', 'div', x, y)
 
 
 def smod(x, y):
@@ -170,7 +190,7 @@ def smod(x, y):
         return I(x[1] % y[1])
     if y[0] == 'i' and y[1] == 1:
         return ZERO
-    return ('a', 'mod', x, y)
+    return mk('a', 'mod', x, y)
 
 
 def lt(x, y):
@@ -178,7 +198,7 @@ def lt(x, y):
         return Bc(x[1] < y[1])
     if x == y:
         return FALSE
-    return ('a', '<', x, y)
+    return mk('a', '<', x, y)
 
 
 def le(x, y):
@@ -186,7 +206,7 @@ def le(x, y):
         return Bc(x[1] <= y[1])
     if x == y:
         return TRUE
-    return ('a', '<=', x, y)
+    return mk('a', '<=', x, y)
 
 
 def gt(x, y):
@@ -206,7 +226,7 @@ def eq(x, y):
         return y if x[1] else not_(y)
     if y[0] == 'b':
         return x if y[1] else not_(x)
-    return ('a', '=', x, y)
+    return mk('a', '=', x, y)
 
 
 def ne(x, y):
@@ -218,7 +238,7 @@ def not_(x):
         return Bc(not x[1])
     if x[0] == 'a' and x[1] == 'not':
         return x[2]
-    return ('a', 'not', x)
+    return mk('a', 'not', x)
 
 
 def and_(*xs):
@@ -242,7 +262,7 @@ def and_(*xs):
         return TRUE
     if len(out) == 1:
         return out[0]
-    return ('a', 'and') + tuple(out)
+    return mk('a', 'and', *out)
 
 
 def or_(*xs):
@@ -266,7 +286,7 @@ def or_(*xs):
         return FALSE
     if len(out) == 1:
         return out[0]
-    return ('a', 'or') + tuple(out)
+    return mk('a', 'or', *out)
 
 
 def implies(x, y):
@@ -276,7 +296,7 @@ def implies(x, y):
         return TRUE if y[1] else not_(x)
     if x == y:
         return TRUE
-    return ('a', '=>', x, y)
+    return mk('a', '=>', x, y)
 
 
 def iff(x, y):
@@ -293,7 +313,7 @@ def ite(c, x, y):
             return c
         if x == FALSE and y == TRUE:
             return not_(c)
-    return ('a', 'ite', c, x, y)
+    return mk('a', 'ite', c, x, y)
 
 
 def select(a, i):
@@ -310,7 +330,7 @@ def select(a, i):
             a = a[2]
             continue
         break
-    return ('a', 'select', a, i)
+    return mk('a', 'select', a, i)
 
 
 def sub_const_diff(x, y):
@@ -323,7 +343,7 @@ def sub_const_diff(x, y):
 
 
 def store(a, i, v):
-    return ('a', 'store', a, i, v)
+    return mk('a', 'store', a, i, v)
 
 
 def forall(vars_, body, patterns=()):
@@ -331,7 +351,7 @@ def forall(vars_, body, patterns=()):
         return body
     if not vars_:
         return body
-    return ('q', 'forall', tuple(vars_), body, tuple(patterns))
+    return mk('q', 'forall', tuple(vars_), body, tuple(patterns))
 
 
 def exists(vars_, body):
@@ -339,7 +359,7 @@ def exists(vars_, body):
         return body
     if not vars_:
         return body
-    return ('q', 'exists', tuple(vars_), body, ())
+    return mk('q', 'exists', tuple(vars_), body, ())
 
 
 def tmin(x, y):
@@ -453,7 +473,7 @@ def _subst(t, m, memo):
         if body[0] == 'b':
             r = body
         else:
-            r = ('q', t[1], t[2], body, pats)
+            r = mk('q', t[1], t[2], body, pats)
     memo[t] = r
     return r
 
@@ -491,7 +511,7 @@ def rebuild(op, args):
         return select(*args)
     if op == 'store':
         return store(*args)
-    return ('a', op) + tuple(args)
+    return mk('a', op, *args)
 
 
 # ---------------------------------------------------------------- linear normal form
